@@ -401,13 +401,15 @@ def train_multi_agent_on_policy(
                 for score in pop_episode_scores
                 if score
             ]
-            if pop_episode_scores:
+            if pop_mean_scores:
                 mean_scores = np.stack(pop_mean_scores, axis=0)
                 mean_score_dict = {
                     "train/mean_score/" + agent: np.mean(mean_scores[:, idx], axis=-1)
                     for idx, agent in enumerate(agent_ids)
                 }
             else:
+                # no episode was completed in this generation
+                mean_scores = np.full((1, len(agent_ids)), np.nan)
                 mean_score_dict = {
                     "train/mean_score/" + agent: np.nan
                     for idx, agent in enumerate(agent_ids)
